@@ -59,6 +59,7 @@ class Obs:
         self.stage_at_fault: list[str] = []
         self.reuse_probes: list[dict[str, Any]] = []
         self.lost_not_closed: list[str] = []
+        self.lost_events: list[dict[str, Any]] = []   # end-of-instant facts about every transport whose connection_lost was delivered
         self.session_tag: dict[int, str] = {}   # connection idx -> tag of the stop callback the application passed when it opened that session
 
     def signature(self) -> str:
@@ -511,6 +512,10 @@ class Runner:
                 if t.sim_lost_seq is not None and not getattr(t, "_vf_lost_checked", False):
                     t._vf_lost_checked = True  # type: ignore[attr-defined]
                     c = t._sim_conn  # noqa: SLF001
+                    if c is not None:
+                        self.obs.lost_events.append({"t": sim.clock, "seq": sim.next_seq(), "lost_seq": t.sim_lost_seq, "state": c.connection_state.name,
+                                                     "pending_calls": [(x.name, x.t_call) for x in sim.calls if not x.done and not x.name.startswith("probe:")
+                                                                       and x.seq_call is not None and x.seq_call < t.sim_lost_seq]})
                     if c is not None and c.connection_state.name != "CLOSED":
                         self.obs.lost_not_closed.append(f"t={sim.clock:.6f}: transport {t._sim_id} lost, connection still {c.connection_state.name}")  # noqa: SLF001
         pend = [v for v in sim.conns if v.closed_seq is not None and not v.audited]
